@@ -55,6 +55,8 @@ class Cog11(ExactSolver):
         if self.geometry not in [1, 2, 3]:
             raise ValueError("geometry must be 1, 2, or 3")
 
+        if (self.gamma - 1) * self.geometry == 2:
+            raise ValueError("no solution for (gamma - 1)(k + 1) = 2")
         if self.beta < 1.0 or self.beta > 3.0:
             print("*** warning: beta lies outside range [1,3] ***")
         
